@@ -294,7 +294,10 @@ def build_vmdk(p):
         room = bytearray(fill(_pget(p, 'desc_pad', 'zero'), desc_room))
         t = text[:desc_room] if not p.get('desc_overflow') else text
         room[0:len(t)] = t
-        _put(body, desc_at, bytes(room[:max(desc_room, len(t))]))
+        # a header that claims a descriptor inside the header sector does
+        # not get the header overwritten: the text stays at sector 1
+        _put(body, desc_at if desc_at >= 512 else 512,
+             bytes(room[:max(desc_room, len(t))]))
     if len(body) > total:
         del body[total:]
     b = [4, 8, 12, 20, 28, 36, 44, 56, 64, 512, desc_at, desc_at + len(text),
